@@ -127,6 +127,8 @@ class Translator:
         self.env: dict[str, object] = {}
         self.consts = module_consts or {}
         self.hooks = []  # callables (translator, node) -> value | None
+        self.broadcasts: list[ast.AST] = []  # `matrix ± scalar` sites (numpy adds the scalar to every element)
+        self.raising_calls: list[tuple[ast.Call, object]] = []  # math.exp / math.pow / math.log calls with their translated argument
 
     # ----------------------------------------------------------------- API
     def tr(self, e: ast.expr):
@@ -172,6 +174,8 @@ class Translator:
     def _BinOp(self, e):
         a, b = self.tr(e.left), self.tr(e.right)
         op = e.op
+        if isinstance(op, (ast.Add, ast.Sub)) and (_is_mat(a) != _is_mat(b)):
+            self.broadcasts.append(e)
         if isinstance(op, ast.Add):
             return _bcast(lambda x, y: x + y, a, b)
         if isinstance(op, ast.Sub):
@@ -266,6 +270,8 @@ class Translator:
         if f in one and len(args) == 1 and not kw:
             x = self.tr(args[0])
             fn = one[f]
+            if f in ("math.exp", "math.log", "math.sqrt", "exp" , "log", "sqrt"):
+                self.raising_calls.append((e, x))
             return x.applyfunc(fn) if _is_mat(x) else fn(x)
         if f in ("np.power", "math.pow", "pow") and len(args) == 2:
             return _bcast(lambda x, y: x**y, self.tr(args[0]), self.tr(args[1]))
@@ -455,7 +461,7 @@ def same(a, b, domains: dict | None = None, trials: int = 12, seed: int = 0):
         return worst
     a, b = sp.sympify(a), sp.sympify(b)
     diff = a - b
-    syms = diff.free_symbols
+    syms = a.free_symbols | b.free_symbols
     rng = random.Random(seed)
     # numeric witness first (cheap, and gives a concrete counter-example)
     agree = 0
